@@ -59,6 +59,7 @@ def frs(xs):
 
 class Sp:
     """one 1-D spline space built with the repo's constructors + what the model / the oracles need"""
+    BUILT = {}
 
     def __init__(self, p, per, kind, breaks, int_knots=False):
         from pygyro.splines.splines import make_knots, BSplines
@@ -70,7 +71,12 @@ class Sp:
         if self.int_knots:
             # a hand-built knot vector of whole numbers (np.arange / np.r_ give an integer array): the same space
             self.knots = self.knots.astype(np.int64)
-        self.basis = BSplines(self.knots, self.p, self.per, kind.startswith('cu'))
+        # the two flags as a caller may spell them: Python bools, numpy bools (elements of an array of options), 0 / 1; in turn
+        key_ = (bool(self.per), kind.startswith('cu'))          # in turn within each class of spaces (periodic or not, fast path or not)
+        Sp.BUILT[key_] = Sp.BUILT.get(key_, 0) + 1
+        sp_ = [bool, np.bool_, int][Sp.BUILT[key_] % 3]
+        self.flag_spelling = sp_.__name__
+        self.basis = BSplines(self.knots, self.p, sp_(self.per), sp_(kind.startswith('cu')))
         self.cu = bool(self.basis.cubic_uniform)
         self.nb = int(self.basis.nbasis)
         self.ncoef = self.nc + self.p
@@ -90,7 +96,8 @@ class Sp:
 
     def desc(self):
         return {'degree': self.p, 'periodic': self.per, 'kind': self.kind, 'ncells': self.nc,
-                'breaks': [float(x) for x in self.breaks], **({'knots_dtype': 'int64'} if self.int_knots else {})}
+                'breaks': [float(x) for x in self.breaks], **({'knots_dtype': 'int64'} if self.int_knots else {}),
+                'flags_given_as': self.flag_spelling}
 
 
 KINDS = ['cu', 'uniform', 'uniform-dyadic', 'dyadic', 'random']
@@ -153,6 +160,8 @@ def gen_data(rng, n, kind):
         u = u * 2.0 ** -30
     elif kind == 'ints':
         u = np.array([float(rng.randint(-9, 9)) for _ in range(n)])
+    elif kind == 'background':     # a small perturbation on a large constant background (delta-f like data)
+        u = 1.0e3 + 1.0e-3 * u
     return u
 
 
@@ -488,6 +497,8 @@ def interp_1d(chk, drv):
     todo += [gen_space(rng) for _ in range(chk.n(220, 3500))]
     for it, sp in enumerate(todo):
         dk = rng.choice(['normal', 'normal', 'scaled', 'big', 'small', 'ints'])
+        if it % 5 == 2:
+            dk = 'background'
         u = gen_data(rng, sp.nb, dk)
         good = check_1d(chk, drv, sp, u, dk, stats)
         chk.case(('1d',) + sp.key() + (dk,), nontrivial=True,
@@ -696,6 +707,7 @@ def interp_2d(chk, drv):
     rng = chk.rng
     stats = {}
     combos = [(a, b) for a in (False, True) for b in (False, True)]
+    n_done = [0]
     for it in range(chk.n(48, 700)):
         per1, per2 = combos[it % 4]
         cu = rng.random() < 0.25          # Spline2D asserts basis1.cubic_uniform == basis2.cubic_uniform
@@ -721,6 +733,13 @@ def interp_2d(chk, drv):
             per1 = per2 = per_
         dk = rng.choice(['normal', 'normal', 'scaled', 'big'])
         U = gen_data(rng, s1.nb * s2.nb, dk).reshape(s1.nb, s2.nb)
+        n_done[0] += 1
+        x2_only = n_done[0] % 5 == 3
+        if x2_only:
+            # data that do not depend on x1 (a profile of x2 only): every line along x1 holds the same numbers - also the first and the
+            # last one; the spline object has been used before for other data
+            U = np.tile(U[0:1, :], (s1.nb, 1))
+            dk = dk + ', the same on every x1 line'
         # how the caller stores the data is not part of the problem: row-major, column-major (x1 the fast index: the transpose of an
         # (x2, x1) table) or a strided window of a larger table
         mem = ('C', 'F', 'strided')[it // 4 % 3]
@@ -734,6 +753,8 @@ def interp_2d(chk, drv):
         try:
             itp = SplineInterpolator2D(s1.basis, s2.basis)
             spl = Spline2D(s1.basis, s2.basis)
+            if x2_only:
+                itp.compute_interpolant(gen_data(rng, s1.nb * s2.nb, 'normal').reshape(s1.nb, s2.nb) + 3.0, spl)
             itp.compute_interpolant(U, spl)
         except Exception as e:  # noqa: BLE001
             chk.fail('C08:2d-raises', '2-D interpolation raised %s: %s' % (type(e).__name__, e), case)
